@@ -186,6 +186,7 @@ def stats_of(vals):
 def after_call(m, out, unit_after):
     """statistics / result of the metric object right after a process_data call, then the optional unit change"""
     from evo.core.units import Unit
+    out["unit_before"] = m.unit.value       # right after process_data: the native unit of the relation (evo 46322c3)
     try:
         out["stats"] = {k: float(v) for k, v in m.get_all_statistics().items()}
         res = m.get_result()
@@ -252,8 +253,8 @@ def judge_hist(ctx, case, impls, outs_per_call):
             # this call's values (checked against the definition by judge_pd above) are the reference for the
             # statistics / result / unit change of the same call
             judge_stats(ctx, case, k, out, out["res"]["ok"], rel, call.get("unit_after"))
-        if k > 0 and out.get("unit_label") not in (None, native) and not call.get("unit_after"):
-            ctx.count("branch", "observation:unit-label-of-earlier-change_unit-persists-over-process_data")
+        if "unit_before" in out and out["unit_before"] != native:
+            ctx.mismatch(case, f"call {k}: unit label after process_data is not the native unit of the relation", out["unit_before"], native)
     ctx.count("branch", "hist-calls", len(case["calls"]))
     ctx.record(case, True)
 
